@@ -39,7 +39,11 @@ def spellings(m):
         yield from case_variants(FULL[m - 1])
 
 
-NON_MONTHS = [0, 13, -1, 100, "0", "13", "00", "000", "013", "1 ", " 1", "1.0", "+1", "{jan}", '"1"', "{1}", "janu", "sept", "", " jan", "jan ", "ja", "januaryy", "marc", None, ["jan"], 1.5, ("jan",), "jan.", "Jan-Feb", "\u017fep", "\u017feptember", "augu\u017ft", "augu\ufb06", "\u017fept", "mar\u0307", "Ma\u0131", "\u0130un", "JUN\u0307"]
+import decimal
+import fractions
+
+NON_MONTHS = [3.0, 12.0, fractions.Fraction(3), decimal.Decimal(3), complex(3, 0), (), ("jun", "jul"), (6, 7), [6], {"jan": 1}, frozenset({"jan"}), b"jan", b"3", float("nan"), float("inf"),
+              0, 13, -1, 100, "0", "13", "00", "000", "013", "1 ", " 1", "1.0", "+1", "{jan}", '"1"', "{1}", "janu", "sept", "", " jan", "jan ", "ja", "januaryy", "marc", None, ["jan"], 1.5, ("jan",), "jan.", "Jan-Feb", "\u017fep", "\u017feptember", "augu\u017ft", "augu\ufb06", "\u017fept", "mar\u0307", "Ma\u0131", "\u0130un", "JUN\u0307"]
 
 
 def unicode_alphabet():
@@ -205,7 +209,7 @@ def check_unchanged(values, acc, exception_only=False):
                     continue
                 res, sideok = r
                 acc.step(("v", repr(v)[:60]), name, canon(res) if not isinstance(res, Field) else "FIELD")
-                same = (res is v) if inplace else (type(res) is type(v) and res == v)
+                same = (res is v) if inplace else (type(res) is type(v) and (res == v or res != res))
                 if not same:
                     acc.violation(
                         {"oracle": "non_month_unchanged", "middleware": name, "value_type": type(v).__name__},
